@@ -1,6 +1,6 @@
 //go:build verif
 
-package rsa
+package rsa_test
 
 // C17, serialised shares: the partial signatures of any k or more distinct players
 // combine to a signature crypto/rsa verifies "whichever subset of players took part",
@@ -23,6 +23,7 @@ import (
 
 	"github.com/cloudflare/circl/internal/verifmc"
 	"github.com/cloudflare/circl/internal/verifref/shamir"
+	tss "github.com/cloudflare/circl/tss/rsa"
 )
 
 const (
@@ -50,11 +51,11 @@ func c17RTDeal(t testing.TB, keyName string, key *rsa.PrivateKey, l, k int, mode
 	d := &c17RT{keyName: keyName, key: key, l: l, k: k, mode: mode, tag: fmt.Sprintf("%s/l=%d/k=%d/%s", keyName, l, k, mode.pad)}
 	pub := &key.PublicKey
 	label := "c17-rt-deal/" + d.tag
-	ksU, err := Deal(verifmc.NewDetReader(label), uint(l), uint(k), key, false)
+	ksU, err := tss.Deal(verifmc.NewDetReader(label), uint(l), uint(k), key, false)
 	if err != nil {
 		t.Fatalf("harness: Deal: %v", err)
 	}
-	ksD, err := Deal(verifmc.NewDetReader(label), uint(l), uint(k), key, true)
+	ksD, err := tss.Deal(verifmc.NewDetReader(label), uint(l), uint(k), key, true)
 	if err != nil {
 		t.Fatalf("harness: Deal: %v", err)
 	}
@@ -64,17 +65,16 @@ func c17RTDeal(t testing.TB, keyName string, key *rsa.PrivateKey, l, k int, mode
 	x := new(big.Int).SetBytes(d.padded)
 	twoDelta := new(big.Int).Lsh(shamir.Factorial(l), 1)
 	for i := range ksU {
-		if ksU[i].si.Cmp(ksD[i].si) != 0 {
-			t.Fatalf("harness: Deal is not reproducible from the same reader")
-		}
-		d.si = append(d.si, new(big.Int).Set(ksU[i].si))
-		d.ref = append(d.ref, new(big.Int).Exp(x, new(big.Int).Mul(twoDelta, ksU[i].si), pub.N))
 		bU, err := ksU[i].MarshalBinary()
 		if err != nil {
 			t.Fatalf("harness: MarshalBinary: %v", err)
 		}
-		if ksU[i].twoDeltaSi != nil {
-			t.Fatalf("harness: Deal(cache=false) filled the cache")
+		si, cachedU, _, ok := c17KeyShareParts(bU)
+		if !ok {
+			t.Fatalf("harness: cannot read the key share encoding")
+		}
+		if cachedU {
+			t.Fatalf("harness: the encoding of a share from Deal(cache=false) carries a cached exponent before first use")
 		}
 		if _, err := ksU[i].Sign(nil, pub, d.padded, false); err != nil {
 			t.Fatalf("harness: Sign: %v", err)
@@ -87,6 +87,12 @@ func c17RTDeal(t testing.TB, keyName string, key *rsa.PrivateKey, l, k int, mode
 		if err != nil {
 			t.Fatalf("harness: MarshalBinary: %v", err)
 		}
+		siD, _, _, okD := c17KeyShareParts(bD)
+		if !okD || siD.Cmp(si) != 0 {
+			t.Fatalf("harness: Deal is not reproducible from the same reader")
+		}
+		d.si = append(d.si, si)
+		d.ref = append(d.ref, new(big.Int).Exp(x, new(big.Int).Mul(twoDelta, si), pub.N))
 		d.enc[c17KindU] = append(d.enc[c17KindU], bU)
 		d.enc[c17KindC] = append(d.enc[c17KindC], bC)
 		d.enc[c17KindD] = append(d.enc[c17KindD], bD)
@@ -157,8 +163,8 @@ func (c c17RTRun) history(d *c17RT, pfxIdx int, pfx c17RTPrefix, reuse bool, S, 
 		"kinds": "U = Deal(cache=false) encoded before first use; C = the same share encoded after one Sign; D = Deal(cache=true)"}
 	viol := func(key, what string) { c.ov.Add(rank, key, caseID, caseID+": "+what, replay) }
 
-	var held KeyShare // the long-lived value
-	var heldSS SignShare
+	var held tss.KeyShare // the long-lived value
+	var heldSS tss.SignShare
 	var failed bool
 	if p, what := verifmc.Try(func() {
 		if pfx.from != nil {
@@ -181,14 +187,14 @@ func (c c17RTRun) history(d *c17RT, pfxIdx int, pfx c17RTPrefix, reuse bool, S, 
 	if failed {
 		return
 	}
-	shares := make([]SignShare, 0, len(S))
+	shares := make([]tss.SignShare, 0, len(S))
 	firstBad := ""
 	for i, pl := range S {
 		cur := &held
 		if !reuse {
-			cur = new(KeyShare)
+			cur = new(tss.KeyShare)
 		}
-		var s SignShare
+		var s tss.SignShare
 		var err error
 		var rnd io.Reader
 		if d.mode.blind != 0 {
@@ -213,7 +219,7 @@ func (c c17RTRun) history(d *c17RT, pfxIdx int, pfx c17RTPrefix, reuse bool, S, 
 		}
 		// the sign share through its own encoding: fresh value, and one reused value
 		var b, b2 []byte
-		var fresh SignShare
+		var fresh tss.SignShare
 		if p, what := verifmc.Try(func() {
 			if b, err = s.MarshalBinary(); err != nil {
 				return
@@ -237,7 +243,7 @@ func (c c17RTRun) history(d *c17RT, pfxIdx int, pfx c17RTPrefix, reuse bool, S, 
 			viol("C17|tss/rsa.SignShare.UnmarshalBinary|reused-value-differs", fmt.Sprintf("load %d (player %d): a reused SignShare value re-encodes to %s, decoded %s", i, pl, verifmc.Hex(b2), verifmc.Hex(b)))
 			return
 		}
-		if firstBad == "" && (fresh.xi == nil || fresh.xi.Cmp(d.ref[pl-1]) != 0 || fresh.Index != uint(pl)) {
+		if _, xi, ok := c17SignShareValue(&fresh); firstBad == "" && (!ok || xi.Cmp(d.ref[pl-1]) != 0 || fresh.Index != uint(pl)) {
 			firstBad = fmt.Sprintf("load %d: the partial signature labelled player %d (asked for player %d, encoding kind %s) is not x^(2*l!*s_%d) mod N", i, fresh.Index, pl, c17KindNames[kinds[i]], pl)
 		}
 		if i == len(S)-1 {
@@ -246,9 +252,9 @@ func (c c17RTRun) history(d *c17RT, pfxIdx int, pfx c17RTPrefix, reuse bool, S, 
 			shares = append(shares, fresh)
 		}
 	}
-	var sig Signature
+	var sig tss.Signature
 	var err error
-	if p, what := verifmc.Try(func() { sig, err = CombineSignShares(pub, shares, d.padded) }); p {
+	if p, what := verifmc.Try(func() { sig, err = tss.CombineSignShares(pub, shares, d.padded) }); p {
 		viol("C17|tss/rsa.CombineSignShares|panic:"+verifmc.PanicClass(what), "CombineSignShares panicked: "+what)
 		return
 	}
